@@ -48,8 +48,8 @@ CLAIMS = {
           "Coq proof (storage independence of the model's matrix reads) + bit-exact correspondence", "3/C15", True),
  "C16": C("Tie only in this revision: lu_decomp/lin_solve replayed bit for bit (n=1..12, small-integer exhaustive up to 3x3 in the thorough tier); residual checked in exact rational arithmetic, multipliers, singular and shape errors checked. The exact-arithmetic correctness theorem is not yet proved.",
           "bit-exact correspondence + exact-rational residual oracle (no theorem yet: partial)", "3/C16", True),
- "C17": C("Tie only in this revision: constructor/write/operator sequences replayed bit for bit against the closed-form Matrix model and compared entrywise with a dense reference (n=1..8, all storages).",
-          "bit-exact correspondence + dense-reference oracle (no theorem yet: partial)", "3/C17", True),
+ "C17": C("Coq theorems for all sizes, bandwidths and indices: every constructor's entries are readable with the expected value (any number type), distinct in-band entries occupy distinct cells, off-band reads are zero, out-of-shape reads and illegal writes panic, a legal write changes exactly one entry; Full+-Full, Banded+-Banded (widened band) and scalar multiples are the entrywise operations (real instance). Mixed-storage sums and component_add/sub are covered by the replay only." + TIE,
+          "Coq proof (storage denotation of the Matrix model) + bit-exact operation-sequence correspondence", "3/C17", True),
  "C18": C("Coq theorems for the four explicit solvers (any number type, right-hand side, callback): nfev equals the number of logged right-hand-side evaluations, naccpt <= nstep (RK4: =)." + TIE,
           "Coq proof of counter invariants + bit-exact correspondence", "3/C18", True),
  "C19": C("Coq theorems (DOPRI5 skeleton, any number type/kernel/callback): recorded callback intervals are contiguous, the newest ends at the solver's final x, UserInterrupt iff the newest call returned Interrupt, nothing runs after an Interrupt, at most one call per loop iteration." + TIE + " Scripted SolOut replays for all six solvers.",
